@@ -432,12 +432,12 @@ func runC05(e *Env) {
 		c05TransposeEval(e, tc[i])
 		e.R.Trace(1)
 		e.R.NonTrivial("tr" + fmt.Sprint(i))
-		if e.Thorough || i%28 == (i/28)%28 {
+		if e.Thorough || i%28 == ((i/28)%28+5)%28 || i%28 == ((i/28)%28+16)%28 {
 			c := tc[i]
 			c.Path = "cli"
 			c05TransposeEval(e, c)
 		}
 	})
-	e.R.AddPart(ev.Part{Name: "transposition", Enumerated: "7 documents (rests, settings, texts, inner key change, a later instance returning to the first instance's own key) x all 28 x 28 pairs of --key values in-process; real binary for one pair per key and document (quick) / all pairs (thorough)", Executions: int64(len(tc)), Exhaustive: true})
+	e.R.AddPart(ev.Part{Name: "transposition", Enumerated: "7 documents (rests, settings, texts, inner key change, a later instance returning to the first instance's own key) x all 28 x 28 pairs of --key values in-process; real binary for two pairs of different keys per key and document (quick) / all pairs (thorough)", Executions: int64(len(tc)), Exhaustive: true})
 	e.R.Sample(map[string]any{"key": "F#", "degree_text": "1[1] 3bm7/5[1]{key=Ebm} R[1] 5_7/3[1]", "name_text": "F#[1] Gbm7/Db[1]{key=Ebm} R[1] Bb_7/D[1]"})
 }
